@@ -162,7 +162,7 @@ fn gen_shape_b(rng: &mut Rng, pool: &[String], name: &str, depth: usize, cfg: &G
     Shape { name: name.to_string(), attrs, kids, text_weight: rng.below(4) }
 }
 
-const TEXTS: [&str; 6] = ["hello", "1", "x y", " padded ", "a&b", "Привет"];
+const TEXTS: [&str; 8] = ["hello", "1", "x y", " padded ", "a&b", "Привет", "\u{E000}nbsp\u{E001}", "\u{E000}copy\u{E001} 2024"];
 
 fn misc_item(rng: &mut Rng) -> Item {
     if rng.chance(1, 2) {
